@@ -136,10 +136,8 @@ impl EpochSnapshotManager {
             {
                 queue.push_back(snapshot);
             } else {
-                tracing::warn!(
-                    "Failed to parse snapshot name during hydration: {}",
-                    snapshot_name
-                );
+                // The name embeds the hex MLS group id: never log it
+                tracing::warn!("Failed to parse a stored snapshot name during hydration");
             }
         }
 
